@@ -113,6 +113,9 @@ class ArithOptimal(Contract):
                             # 2-d operands, one or both in Fortran (transposed) memory order: the result is positional
                             for fox, foy in ((True, False), (True, True)):
                                 yield dict(op=op, x=list(x), y=list(y), method=method, shx=[2, 2], shy=[2, 2], fox=fox, foy=foy)
+                            # operands derived by the library itself: x.T of a transposed base, a shallow copy (flags travel with both)
+                            yield dict(op=op, x=list(x), y=list(y), method=method, shx=[2, 2], shy=[2, 2], xder='T')
+                            yield dict(op=op, x=list(x), y=list(y), method=method, shx=[2], shy=[2], xder='copy', yder='copy')
                         if method == 'raw':
                             # the same operation through fxpmath.functions, through the NumPy ufunc, and with a class-wide template
                             # of the opposite signedness installed (results are then built from a copy of the template and resized)
@@ -131,12 +134,16 @@ class ArithOptimal(Contract):
 
     def run(self, cfg, P, inp):
         sx, wx, fx = cfg['x']; sy, wy, fy = cfg['y']
-        x = make_fxp(P, sx, wx, fx, codes=inp['cx'], shape=tuple(cfg['shx']), cfg={'op_method': cfg['method'], 'rounding': 'around'},
-                     status={'inaccuracy': inp['ix'], 'overflow': inp.get('ox', False), 'underflow': inp.get('ux', False)},
-                     vdtype=int if (cfg.get('vint') and fx <= 0) else float, forder=bool(cfg.get('fox')))
-        y = make_fxp(P, sy, wy, fy, codes=inp['cy'], shape=tuple(cfg['shy']), cfg={'overflow': 'wrap'},
-                     status={'inaccuracy': inp['iy'], 'overflow': inp.get('oy', False), 'underflow': inp.get('uy', False)},
-                     vdtype=int if (cfg.get('vint') and fy <= 0) else float, forder=bool(cfg.get('foy')))
+        mkx = (lambda **kw: derived_fxp(P, cfg['xder'], sx, wx, fx, inp['cx'], tuple(cfg['shx']), **kw)) if cfg.get('xder') else \
+              (lambda **kw: make_fxp(P, sx, wx, fx, codes=inp['cx'], shape=tuple(cfg['shx']), forder=bool(cfg.get('fox')), **kw))
+        mky = (lambda **kw: derived_fxp(P, cfg['yder'], sy, wy, fy, inp['cy'], tuple(cfg['shy']), **kw)) if cfg.get('yder') else \
+              (lambda **kw: make_fxp(P, sy, wy, fy, codes=inp['cy'], shape=tuple(cfg['shy']), forder=bool(cfg.get('foy')), **kw))
+        x = mkx(cfg={'op_method': cfg['method'], 'rounding': 'around'},
+                status={'inaccuracy': inp['ix'], 'overflow': inp.get('ox', False), 'underflow': inp.get('ux', False)},
+                vdtype=int if (cfg.get('vint') and fx <= 0) else float)
+        y = mky(cfg={'overflow': 'wrap'},
+                status={'inaccuracy': inp['iy'], 'overflow': inp.get('oy', False), 'underflow': inp.get('uy', False)},
+                vdtype=int if (cfg.get('vint') and fy <= 0) else float)
         if cfg.get('from_item'):
             xa = make_fxp(P, sx, wx, fx, codes=[inp['cx'][0], 0], shape=(2,), cfg={'op_method': cfg['method'], 'rounding': 'around'}, vdtype=float)
             x = xa[0]
